@@ -672,6 +672,16 @@ class Implicit:
                 callee = self.repo.resolve_expr(fn.module, e.func, fn.cls)
         except Exception:
             callee = None
+        if isinstance(callee, ast.Call) and len(e.args) == 1 and (dotted(callee.func) or "").split(".")[-1] in ("methodcaller", "attrgetter", "itemgetter") and callee.args and not callee.keywords:
+            # NAME = operator.methodcaller("m", *args): NAME(x) reads x.m(*args); attrgetter("a"): x.a; itemgetter(k): x[k]
+            kind = (dotted(callee.func) or "").split(".")[-1]
+            x = e.args[0]
+            if kind == "methodcaller" and isinstance(callee.args[0], ast.Constant) and isinstance(callee.args[0].value, str):
+                return ast.copy_location(ast.Call(func=ast.Attribute(value=x, attr=callee.args[0].value, ctx=ast.Load()), args=list(callee.args[1:]), keywords=[]), e)
+            if kind == "attrgetter" and len(callee.args) == 1 and isinstance(callee.args[0], ast.Constant) and isinstance(callee.args[0].value, str) and "." not in callee.args[0].value:
+                return ast.copy_location(ast.Attribute(value=x, attr=callee.args[0].value, ctx=ast.Load()), e)
+            if kind == "itemgetter" and len(callee.args) == 1:
+                return ast.copy_location(ast.Subscript(value=x, slice=callee.args[0], ctx=ast.Load()), e)
         if not isinstance(callee, FuncInfo):
             return e
         from ..decide import paths_of
@@ -728,7 +738,12 @@ class Implicit:
                     if isinstance(v, int) and v >= 1:
                         return self._record(fn, at, "argument is max(%d, ...) >= 1" % v)
                 except Exception:
-                    continue
+                    pass
+                if isinstance(x, ast.Name) and x.id in fn.params and not any(isinstance(t_, ast.Name) and t_.id == x.id and isinstance(t_.ctx, ast.Store) for t_ in ast.walk(fn.node)):
+                    # a parameter that every call site of the function gives a positive constant (a width threaded through)
+                    vals = self._param_constants(fn, x.id)
+                    if vals and all(isinstance(v_, int) and not isinstance(v_, bool) and v_ >= 1 for v_ in vals):
+                        return self._record(fn, at, "argument is max(%s, ...) and every call site passes %s = %s" % (x.id, x.id, sorted(set(vals))))
         s = norm(a)
         for st in walk_no_nested(fn.node):
             if isinstance(st, ast.If) and st.lineno < getattr(at, "lineno", 0) and st.body and isinstance(st.body[-1], ast.Raise):
@@ -736,6 +751,32 @@ class Implicit:
                 if t in ("%s < 1" % s, "%s <= 0" % s):
                     return self._record(fn, at, "dominated by `if %s: raise`" % t)
         return False
+
+    def _param_constants(self, fn: FuncInfo, param: str) -> List[Any]:
+        """the values of parameter `param` at every call site of fn in the package, when each is a constant expression of the
+        calling module / class; [] if some site is not (or there is none)"""
+        from ..fold import Folder
+
+        idx = fn.params.index(param)
+        pos = idx - (1 if fn.cls is not None and not fn.is_static else 0)
+        out: List[Any] = []
+        for other, c in self.repo.all_calls():
+            f = c.func
+            if not ((isinstance(f, ast.Attribute) and f.attr == fn.name) or (isinstance(f, ast.Name) and f.id == fn.name)):
+                continue
+            if any(isinstance(a_, ast.Starred) for a_ in c.args):
+                return []
+            a = c.args[pos] if 0 <= pos < len(c.args) else next((k.value for k in c.keywords if k.arg == param), None)
+            if a is None:
+                d_ = dict(zip(reversed(fn.params), reversed(fn.node.args.defaults))).get(param)
+                if d_ is None:
+                    return []
+                a = d_
+            try:
+                out.append(Folder({}, self.repo, other.module, other.cls).fold(a))
+            except Exception:
+                return []
+        return out
 
     def _dict_total(self, fn: FuncInfo, n: ast.Subscript) -> bool:
         """literal dict indexed by an enum-valued key whose members are all present"""
